@@ -428,6 +428,22 @@ def noon(
     if date is None:
         date = today(tzinfo)  # type: ignore
 
+    noon = _noon_utc(observer, date).astimezone(tzinfo)  # type: ignore
+
+    # If the dates don't match use the noon of the next or previous day.
+    noon_date = noon.date()
+    if noon_date != date:
+        if noon_date < date:
+            delta = datetime.timedelta(days=1)
+        else:
+            delta = datetime.timedelta(days=-1)
+        noon = _noon_utc(observer, date + delta).astimezone(tzinfo)  # type: ignore
+
+    return noon
+
+
+def _noon_utc(observer: Observer, date: datetime.date) -> datetime.datetime:
+    """Solar noon, in UTC, of the solar day that starts on the UTC date `date`"""
     jc = julianday_to_juliancentury(julianday(date))
     eqtime = eq_of_time(jc)
     timeUTC = (720.0 - (4 * observer.longitude) - eqtime) / 60.0
@@ -457,7 +473,7 @@ def noon(
         hour += 24
         date -= datetime.timedelta(days=1)
 
-    noon = datetime.datetime(
+    return datetime.datetime(
         date.year,
         date.month,
         date.day,
@@ -466,7 +482,6 @@ def noon(
         second,
         tzinfo=datetime.timezone.utc,
     )
-    return noon.astimezone(tzinfo)  # type: ignore # pylint: disable=E1120
 
 
 def midnight(
@@ -496,6 +511,24 @@ def midnight(
     if date is None:
         date = today(tzinfo)  # type: ignore
 
+    midnight = _midnight_utc(observer, date)
+
+    # The solar midnight closest to 00:00:00 of the date in the requested time
+    # zone may be the one calculated for the next or previous day.
+    start_of_day = datetime.datetime(
+        date.year, date.month, date.day, tzinfo=tzinfo  # type: ignore
+    )
+    half_a_day = datetime.timedelta(hours=12)
+    if midnight - start_of_day > half_a_day:
+        midnight = _midnight_utc(observer, date - datetime.timedelta(days=1))
+    elif start_of_day - midnight > half_a_day:
+        midnight = _midnight_utc(observer, date + datetime.timedelta(days=1))
+
+    return midnight.astimezone(tzinfo)  # type: ignore
+
+
+def _midnight_utc(observer: Observer, date: datetime.date) -> datetime.datetime:
+    """Solar midnight, in UTC, closest to 00:00:00 UTC of `date`"""
     midday = datetime.time(12, 0, 0)
     jd = julianday(datetime.datetime.combine(date, midday))
     newt = julianday_to_juliancentury(jd + 0.5 + -observer.longitude / 360.0)
@@ -526,7 +559,7 @@ def midnight(
         hour += 24
         date -= datetime.timedelta(days=1)
 
-    midnight = datetime.datetime(
+    return datetime.datetime(
         date.year,
         date.month,
         date.day,
@@ -535,7 +568,6 @@ def midnight(
         second,
         tzinfo=datetime.timezone.utc,
     )
-    return midnight.astimezone(tzinfo)  # type: ignore
 
 
 def zenith_and_azimuth(
